@@ -175,6 +175,12 @@ def gen_graph(r, i, zero_ok, big=False):
                 edges.append((names[j], names[j + 1]))
         for _ in range(3 + r.below(4)):
             edges.append((r.pick(names), r.pick(names)))
+        # diamonds: a second two-hop route j -> x -> j+2, so that several pairs have >= 2 shortest paths
+        for _ in range(3):
+            j = r.below(n - 2)
+            x = names[(j + 7 + r.below(8)) % n]
+            edges.append((names[j], x))
+            edges.append((x, names[j + 2]))
     else:
         dens = r.pick([0, 1, 1, 2, 2, 3])
         ne = 0 if n == 0 else r.below(dens * n + 1)
@@ -403,7 +409,7 @@ def split_obs(c, obs):
         return out
     out["nodes"] = [r[0] for r in obs[1][1]]
     out["edges"] = [(r[0], r[1], (r[3] if r[2] == 1 else None)) for r in obs[2][1]]
-    i = 3
+    i = 4
     for k in c["calls"]:
         if i >= len(obs):
             out["calls"].append(None)
@@ -431,8 +437,8 @@ def project(c, obs):
     """what is compared with the model: rows trimmed to the call's level"""
     if not obs or obs[0][1][0][0] != 0:
         return obs
-    res = list(obs[:3])
-    i = 3
+    res = list(obs[:4])
+    i = 4
     for k in c["calls"]:
         if i >= len(obs):
             break
@@ -442,6 +448,11 @@ def project(c, obs):
         if code == 0:
             kind, rows, fl = obs[i]
             kl = KLEN.get(kind, 1)
+            if k["t"] is not None and kind in (1040, 1041):
+                # only the target's entry is fixed by the property
+                keep = [j for j, r in enumerate(rows) if r[kl - 1] == k["t"]]
+                rows = [rows[j] for j in keep]
+                fl = [fl[j] for j in keep]
             if k["level"] == 0:
                 rows = [r[:kl] for r in rows]
             elif k["level"] == 1:
@@ -769,22 +780,50 @@ class SpProp(props.BaseProp):
         return res
 
     def shrink_candidates(self, c):
+        """delta debugging on the call list (chunks of 1/2, 1/4, 1/8, then single calls),
+        then single edges, then single declared nodes"""
         out = []
         calls = c["calls"]
-        if len(calls) > 1:
-            half = len(calls) // 2
-            for part in (calls[:half], calls[half:]):
-                out.append(dict(c, calls=part))
-            for i in range(min(len(calls), 30)):
-                out.append(dict(c, calls=calls[:i] + calls[i + 1:]))
+        n = len(calls)
+        seen = set()
+        for parts in (2, 4, 8, n):
+            if parts > n or parts < 2:
+                continue
+            size = (n + parts - 1) // parts
+            for a in range(0, n, size):
+                key = (a, min(n, a + size))
+                if key in seen or key == (0, n):
+                    continue
+                seen.add(key)
+                out.append(dict(c, calls=calls[:a] + calls[a + size:]))
+            if len(out) >= 24:
+                break
+        out = out[:30]
         for i in range(len(c["edges"])):
             out.append(dict(c, edges=c["edges"][:i] + c["edges"][i + 1:]))
+        out = out[:38]
         for i in range(len(c["nodes"])):
             out.append(dict(c, nodes=c["nodes"][:i] + c["nodes"][i + 1:]))
         return out
 
-    def shrink(self, case, descr, wd, rounds=14):
-        return props.BaseProp.shrink(self, case, descr, wd, rounds=rounds)
+    def shrink(self, case, descr, wd, rounds=10, budget_s=75):
+        """as BaseProp.shrink, with a wall-clock budget per reported case"""
+        import time
+        t0 = time.time()
+        cur, cur_d = case, descr
+        for _ in range(rounds):
+            if time.time() - t0 > budget_s:
+                break
+            cands = self.shrink_candidates(cur)
+            if not cands:
+                break
+            r = self.still_fails(cands[:40], wd)
+            if r is None:
+                break
+            cur, cur_d = r
+        cur = dict(cur)
+        cur["id"] = case["id"]
+        return cur, cur_d
 
     def stats_key(self, c, o):
         ks = ["kind_d%d_m%d_s%d" % tuple(c["spec"][:3]), "weights_" + c["wmode"]]
